@@ -268,4 +268,126 @@ theorem execName_total {c : Ctx} {w : World} {tx : Tx} {snd rcv : Copy} {g : Gov
           exact setOwner_total hso hs hr hne
       · subst h; simp at he
 
+/-! ### aergo.name itself as the sender: `receiver = sender` -/
+
+theorem successBranch_own_total {w0 w : World} {bp : Nat} {tx : Tx} {s r : Copy} {st : Status}
+    (hid : s.id = r.id) (ht : w.total + s.cur.bal = w0.total + w.bal s.id) :
+    (successBranch w bp tx s r 0 st).w.total = w0.total := by
+  rw [(successBranch_w _ _ _ _ _ _ _).1, if_neg (by simp [hid])]
+  have h1 := total_put w s.id (s.cur.setNonce tx.nonce)
+  rw [setNonce_bal] at h1
+  omega
+
+/-- the name contract's paths when aergo.name itself is the sender (`receiver = sender`, one record) -/
+theorem execName_own_total {c : Ctx} {w : World} {tx : Tx} {acc : Copy} {g : GovOut} {bp : Nat} {st : Status}
+    (h : execName c w tx acc acc = g) (he : g.err = none) (hs : acc.cur = w.acct acc.id) :
+    (successBranch g.w bp tx g.snd g.rcv 0 st).w.total = w.total := by
+  have hb : acc.cur.bal = w.bal acc.id := by rw [hs]; rfl
+  -- paying for a name with one record
+  have pay : ∀ (w1 : World) (s r : Copy) (w' : World), w1.accts = w.accts →
+      payName (nameRef w acc acc) acc acc tx.amount w1 = some (s, r, w') →
+      (successBranch w' bp tx s r 0 st).w.total = w.total := by
+    intro w1 s r w' ha hp
+    have hb1 : ∀ a, w1.bal a = w.bal a := bal_of_accts ha
+    have ht1 : w1.total = w.total := total_of_accts ha
+    unfold nameRef at hp
+    split at hp
+    · rename_i o ho
+      split at hp
+      · simp only [payName] at hp
+        cases hp
+        refine successBranch_own_total rfl ?_
+        have h1 := total_put w1 acc.id acc.cur
+        rw [bal_put_same]
+        have := hb1 acc.id
+        omega
+      · rename_i hso
+        simp only [payName] at hp
+        split at hp
+        · cases hp
+        · rename_i s1 cp' hsend
+          cases hp
+          have q := sendBal_spec hsend
+          obtain ⟨q1, q2, q3, q4, q5, q6, q7, q8, q9, q10, q11, q12, q13, q14, q15, q16, q17⟩ := q
+          simp at q2 q17
+          have q17' := q17 hso
+          refine successBranch_own_total (by rw [q1]) ?_
+          have h1 := total_put w1 o cp'.cur
+          have hso' : o ≠ acc.id := fun e => hso e.symm
+          rw [q2, q1, bal_put_other _ _ _ _ hso']
+          have := hb1 acc.id; have := hb1 o
+          have hcp : (w.acct o).bal = w.bal o := rfl
+          omega
+    · simp only [payName, sendBal_same rfl] at hp
+      cases hp
+      refine successBranch_own_total rfl ?_
+      have h1 := total_put w1 acc.id acc.cur
+      rw [bal_put_same]
+      have := hb1 acc.id
+      omega
+  unfold execName at h
+  simp only [] at h
+  split at h
+  · subst h; simp at he
+  · split at h
+    · subst h; simp at he
+    · split at h
+      · rename_i n hgov
+        split at h
+        · subst h; simp at he
+        · rename_i s r w' hp
+          subst h
+          exact pay { w with names := mset w.names n (acc.id, acc.id) } s r w' rfl hp
+      · rename_i n to hgov
+        split at h
+        · subst h; simp at he
+        · split at h
+          · subst h; simp at he
+          · rename_i s r w' hp
+            subst h
+            exact pay { w with names := mset w.names n ((mget w.creator to).getD to, to) } s r w' rfl hp
+      · rename_i a hgov
+        split at h
+        · subst h; simp at he
+        · rename_i s r w' hso
+          subst h
+          show (successBranch w' bp tx s r 0 st).w.total = w.total
+          unfold setOwner at hso
+          simp only [] at hso
+          split at hso
+          · -- the new owner is aergo.name itself
+            simp only [sendBal_same rfl] at hso
+            cases hso
+            refine successBranch_own_total rfl ?_
+            show ((({ w with names := mset w.names nAergoName (a, aName) } : World).put acc.id acc.cur).put acc.id acc.cur).total + acc.cur.bal = _
+            have h1 := total_put ({ w with names := mset w.names nAergoName (a, aName) } : World) acc.id acc.cur
+            have h2 := total_put (({ w with names := mset w.names nAergoName (a, aName) } : World).put acc.id acc.cur) acc.id acc.cur
+            rw [bal_put_same] at h2 ⊢
+            have e1 : ({ w with names := mset w.names nAergoName (a, aName) } : World).total = w.total := rfl
+            have e2 : ({ w with names := mset w.names nAergoName (a, aName) } : World).bal acc.id = w.bal acc.id := rfl
+            omega
+          · rename_i has
+            split at hso
+            · cases hso
+            · rename_i r1 oc' hsend
+              simp only [if_true] at hso
+              cases hso
+              have q := sendBal_spec hsend
+              obtain ⟨q1, q2, q3, q4, q5, q6, q7, q8, q9, q10, q11, q12, q13, q14, q15, q16, q17⟩ := q
+              simp at q2 q17
+              have has' : acc.id ≠ a := fun e => has e.symm
+              have q17' := q17 has'
+              refine successBranch_own_total rfl ?_
+              have h1 := total_put ({ w with names := mset w.names nAergoName (a, aName) } : World) a oc'.cur
+              have h2 := total_put (({ w with names := mset w.names nAergoName (a, aName) } : World).put a oc'.cur) s.id s.cur
+              have e1 : ({ w with names := mset w.names nAergoName (a, aName) } : World).total = w.total := rfl
+              have e2 : ∀ x, ({ w with names := mset w.names nAergoName (a, aName) } : World).bal x = w.bal x := fun _ => rfl
+              rw [q1] at h2
+              rw [bal_put_other _ _ _ _ has] at h2
+              rw [q2, q1, bal_put_same]
+              have := e2 a; have := e2 acc.id
+              have hoc : (w.acct a).bal = w.bal a := rfl
+              omega
+      · subst h; simp at he
+
 end Aergo.Ledger
